@@ -559,6 +559,24 @@ func registerMisc(e *Engine) {
 		// unset unless the harness provided it
 		return Str{}
 	}
+	// os.LookupEnv: (value, present); a variable can be exported with an empty value
+	in["os.LookupEnv"] = func(m *Machine, fr *frame, a []Value) Value {
+		name, ok := argStr(a[0]).Const()
+		if !ok {
+			panic(abort("os.LookupEnv symbolic name"))
+		}
+		val := in["os.Getenv"](m, fr, a).(Str)
+		if c, ok := val.Const(); ok && c == "" {
+			if _, given := m.inputs["env."+name]; !given {
+				return Tuple{Str{}, false}
+			}
+		}
+		set := TVar("envset."+name, SBool)
+		m.recordInput("envset."+name, mkBool(set))
+		// a non-empty value means the variable is set
+		m.addPC(TImplies(TNot(TEq(val.Term(), TStr(""))), set))
+		return Tuple{val, mkBool(set)}
+	}
 }
 
 var (
